@@ -7,7 +7,7 @@ the reference statistic is computed from the recorded rewards of that arm whose 
 leaf: mean (EpsilonGreedy 0), mean + alpha sqrt(2 ln n / n) (UCB1), Beta(1+s, 1+f) checked by a 6-sigma
 moment test over repeated identical queries (Thompson); an arm without observations keeps 0.
 
-As built: Extras: refits, MiniBatchKMeans with more clusters than the rows can fill (cells without rows: reference = policy trained on the empty set), tree queries a hair (1e-9, 1e-12 relative) off the midpoints between stored values, randomised cluster policies checked with the row's own seed.
+As built: Extras: refits, MiniBatchKMeans with more clusters than the rows can fill (cells without rows: reference = policy trained on the empty set), tree queries a hair (1e-9, 1e-12 relative) off the midpoints between stored values, randomised cluster policies checked with the row's own seed; a third of the non-linear Clusters histories carry a large common offset (1.7e9, 1e6) on every context.
 """
 from mon import env  # noqa: F401
 import math
@@ -160,6 +160,14 @@ def run_case(rs, ctx):
     nf = int(rs.integers(1, 4))
     sh = gen.Shadow(cfg, nf)
     ops = gen.gen_ops(rs, cfg, sh, 1, ["fit"], train_rows=(10, 14) if npd.get("n_clusters", 0) >= 5 else (10, 30)) + gen.gen_ops(rs, cfg, sh, int(rs.integers(0, 7)), KINDS, train_rows=(1, 10))
+    offset = 0.0
+    if not is_tree and not lk.startswith("lin") and rs.integers(3) == 0:
+        # contexts with a large common offset (unix timestamps, identifiers): the spread is tiny relative to the magnitude
+        offset = float(gen.pick(rs, [1.7e9, 1.7e9, 1.0e6]))
+        for o in ops:
+            if o.get("X") is not None:
+                o["X"] = [[v + offset for v in row] for row in o["X"]]
+        ctx.count("offset_context_histories")
     m = gen.build(cfg)
     rows = {"d": [], "r": [], "X": []}
     per_arm = {}
@@ -193,7 +201,7 @@ def run_case(rs, ctx):
             per_arm[a][0].append(x)
             per_arm[a][1].append(r)
             late_with_rows |= a in late_arms
-        Q = gen.gen_contexts(rs, 5, nf) + [list(rows["X"][int(rs.integers(len(rows["X"])))])]
+        Q = [[v + offset for v in row] for row in gen.gen_contexts(rs, 5, nf)] + [list(rows["X"][int(rs.integers(len(rows["X"])))])]
         if is_tree:
             # queries a hair above / below the midpoints between stored values (where split thresholds lie): scikit-learn
             # compares in float32, so these decide whether the library really asks the fitted tree
